@@ -866,6 +866,17 @@ func c06Pluck(c *Ctx) {
 
 // freshEmptyContainer: NewObject()/NewList() without arguments, or a container literal with a fresh empty spine.
 func freshEmptyContainer(c *Ctx, t Term, list bool) bool {
+	// NewList().(*list): the constructor's result seen through an assertion to its concrete type
+	if pr, ok := t.(TProj); ok && pr.K == 0 {
+		t = pr.X
+	}
+	if as, ok := t.(TAssert); ok {
+		if pt, isP := as.To.(*types.Pointer); isP {
+			if n, isN := pt.Elem().(*types.Named); isN && c.Inv().ContOf(n) != nil {
+				t = as.X
+			}
+		}
+	}
 	switch x := t.(type) {
 	case TCall:
 		return x.Fun != nil && x.Fun.Pkg() == c.Types && x.Fun.Name() == ctorName(list) && len(x.Args) == 0
